@@ -319,6 +319,7 @@ func propC08(run *Run, n int) {
 			}
 			if len(cfg.SetKeys) > 1 && r.Chance(1, 2) {
 				addSwappedKeyMember(r, t, cfg.SetKeys)
+				t = cfg.fixKeyed(t) // keep identities pairwise distinct inside every array
 			}
 			addC08Case(run, c.lbl, t, joinHunks(sub))
 		}
